@@ -67,6 +67,7 @@ type vnode struct {
 	timeout  *pbft.VerifTimeout // armed timer, if any
 	tiLast   pbft.VerifTimeout  // the ticker's memory of the last request it accepted
 	trace    []string // sx of steps
+	preCrash string
 	walIn    []bool   // the inputs logged since the current height began: true = record intact
 	down     bool
 	panicked string
@@ -99,6 +100,7 @@ type cnet struct {
 	blocks   map[string]*types.Block // by part-set-header key: blocks seen on the wire
 	psets    map[string]*types.PartSet
 	txn      int
+	proposers map[string][]byte
 }
 
 func (c *cnet) hit(sig, what string) {
@@ -246,6 +248,13 @@ func (c *cnet) observe(nd *vnode, outs []string) string {
 		vs = append(vs, sxL(sxZ(r), bitsSx(pv.BitArray(), nv), majSx(pv), bitsSx(pc.BitArray(), nv), majSx(pc)))
 	}
 	prop := rs.Validators.Proposer()
+	// C16: all honest nodes name the same proposer for a height and round
+	pk := fmt.Sprintf("%d/%d", rs.Height, rs.Round)
+	if old, ok := c.proposers[pk]; ok && !bytes.Equal(old, prop.Address) {
+		c.hit("proposer-disagreement", fmt.Sprintf("height/round %s: node%d names %x, another honest node named %x", pk, nd.idx, prop.Address, old))
+	} else if !ok {
+		c.proposers[pk] = prop.Address
+	}
 	lc := "()"
 	if rs.LastCommit != nil {
 		lc = sxL(bitsSx(rs.LastCommit.BitArray(), rs.LastCommit.Size()), majSx(rs.LastCommit))
@@ -580,6 +589,7 @@ func (c *cnet) crash(nd *vnode, tear bool) {
 	if nd.down || nd.panicked != "" {
 		return
 	}
+	nd.preCrash = c.stateKey(nd)
 	nd.cs.VerifCloseWAL()
 	nd.down = true
 	nd.internal = nil
@@ -610,6 +620,25 @@ func (c *cnet) crash(nd *vnode, tear bool) {
 		}
 	}
 	nd.trace = append(nd.trace, sxL(sxL("5", sxBool(tornInput)), "()"))
+}
+
+// stateKey summarises what a restart must bring back: height/round/step, lock, proposal block, votes
+func (c *cnet) stateKey(nd *vnode) string {
+	rs := nd.cs.GetRoundState()
+	lb, pb := "-", "-"
+	if rs.LockedBlock != nil {
+		lb = fmt.Sprintf("%x@%d", rs.LockedBlock.Hash()[:4], rs.LockedRound)
+	}
+	if rs.ProposalBlock != nil {
+		pb = fmt.Sprintf("%x", rs.ProposalBlock.Hash()[:4])
+	}
+	var vs []string
+	for r := int64(0); r <= rs.Votes.Round(); r++ {
+		if pv := rs.Votes.Prevotes(r); pv != nil {
+			vs = append(vs, fmt.Sprintf("%d:%v/%v", r, pv.BitArray(), rs.Votes.Precommits(r).BitArray()))
+		}
+	}
+	return fmt.Sprintf("%d/%d/%d lock=%s block=%s votes=%s", rs.Height, rs.Round, rs.Step, lb, pb, strings.Join(vs, " "))
 }
 
 // replayable counts the input records of the current height that WAL replay will reach: the
@@ -696,6 +725,12 @@ func (c *cnet) restart(nd *vnode) {
 	}
 	outs := c.collect(nd, nd.cs.GetRoundState().Height)
 	nd.trace = append(nd.trace, sxL(tag, c.observe(nd, outs)))
+	// C07: with every record intact, replay brings back the step, the lock and the votes
+	if intact == len(nd.walIn) {
+		if now := c.stateKey(nd); now != nd.preCrash {
+			c.hit("replay-diverges", fmt.Sprintf("node%d before the crash %s, after replaying all %d records %s", nd.idx, nd.preCrash, intact, now))
+		}
+	}
 }
 
 // ---------- Byzantine validators ----------
@@ -851,7 +886,7 @@ func (c *cnet) byzBlock(tgt *vnode, i int, invalid bool) (*types.Block, *types.P
 func runConsensusCase(idx int, cse *csCase, workroot string) ([]string, []MonitorHit, map[string]int, bool) {
 	r := NewRng(cse.Seed)
 	c := &cnet{r: r, chainID: "verif-chain", archive: map[int64][]netMsg{}, dist: map[string]int{}, caseIdx: idx,
-		blocks: map[string]*types.Block{}, psets: map[string]*types.PartSet{}}
+		blocks: map[string]*types.Block{}, psets: map[string]*types.PartSet{}, proposers: map[string][]byte{}}
 	c.workdir = filepath.Join(workroot, fmt.Sprintf("net%d", idx))
 	os.RemoveAll(c.workdir)
 	os.MkdirAll(c.workdir, 0700)
